@@ -323,4 +323,4 @@ var walProp = pbt.Prop[Plan]{ID: "C03", Name: "wal", Gen: genPlan, Run: runPlan}
 
 func TestProp_wal(t *testing.T) { walProp.Check(t) }
 
-func TestReplay(t *testing.T) { pbt.Replay(t, walProp) }
+func TestReplay(t *testing.T) { pbt.Replay(t, walProp, sqliteProp) }
